@@ -31,6 +31,10 @@ type CaseC18 struct {
 	Inherit bool
 	// Inputs that the parsers reject (random bytes, truncated messages, archives with a zero-byte or garbage member): a call that
 	// fails must fail the same way concurrently, and must not disturb the calls running next to it. Indexed after RT and Static.
+	// Model[i] says that the reference model of the configured extension applies to RT[i] (a conflict-free message): the
+	// concurrent results are then also compared with what the statement says the call returns - which is what it returns
+	// running alone, whatever was parsed before or next to it.
+	Model     []bool   `json:",omitempty"`
 	BadRT     [][]byte `json:",omitempty"`
 	BadStatic [][]byte `json:",omitempty"`
 	// Plan[g] lists the inputs goroutine g parses, in order: index < len(RT) is a realtime message, otherwise static feed index-len(RT).
@@ -192,6 +196,12 @@ func checkC18(c CaseC18) error {
 						j := journal.BuildJournal(&sliceSource{feeds: []*gtfs.Realtime{res.rt, res.rt}}, time.Time{}, time.Unix(1<<60, 0))
 						j.ExportToCsv()
 					}
+					if res.rt != nil && res.input < len(c.Model) && c.Model[res.input] {
+						if err := c18Model(c, res.input, rgen.Normalize(res.rt)); err != nil {
+							errs[g] = vt.FailSig("concurrent-differs-from-model", "extension %+v: input %d parsed concurrently (by goroutine %d) is not what the call returns alone: %v", c.Ext, res.input, other, err)
+							return
+						}
+					}
 					if js != ref[res.input] {
 						errs[g] = vt.FailSig("concurrent-differs", "extension %+v: input %d parsed concurrently (by goroutine %d) differs from the sequential parse: %s", c.Ext, res.input, other, rgen.FirstDiff(js, ref[res.input]))
 						return
@@ -210,6 +220,18 @@ func checkC18(c CaseC18) error {
 	return nil
 }
 
+// c18Model compares a result for RT[i] with the reference model of the configured extension.
+func c18Model(c CaseC18, i int, got rgen.NRealtime) error {
+	switch c.Ext.Kind {
+	case "nycttrips":
+		return compareC16(got, CaseC16{Zone: c.Zone, Msg: c.RT[i], Opts: c.Ext.Trips})
+	case "nyctalerts":
+		return compareC17(got, CaseC17{Zone: c.Zone, Msg: c.RT[i], Opts: c.Ext.Alerts})
+	default:
+		return rgen.Compare(got, rgen.Expect(c.RT[i], c.Zone, rgen.ExpectOpts{}))
+	}
+}
+
 func genC18(t *rapid.T) (CaseC18, bool) {
 	c06NoSizeClasses = true
 	defer func() { c06NoSizeClasses = false }()
@@ -217,8 +239,9 @@ func genC18(t *rapid.T) (CaseC18, bool) {
 	c := CaseC18{Zone: zone, Ext: genExtSpec(t), Inherit: rapid.Bool().Draw(t, "inherit")}
 	nRT := rapid.IntRange(1, 3).Draw(t, "nRealtime")
 	for i := 0; i < nRT; i++ {
-		m, _, _ := genC06Msg(t, zone, c.Ext)
+		m, _, _, modelOK := genC06MsgModel(t, zone, c.Ext)
 		c.RT = append(c.RT, m)
+		c.Model = append(c.Model, modelOK)
 	}
 	nSt := rapid.IntRange(0, 2).Draw(t, "nStatic")
 	for i := 0; i < nSt; i++ {
